@@ -68,6 +68,21 @@ Section Trip.
     apply from_triplets_perm. apply Permutation_flat_map. exact HP.
   Qed.
 
+  (* the executed variant (only the triplets that hit (r,c) are added) *)
+  Lemma fold_hits_acc (ts : list triplet) r c acc :
+    fold_left (fun a t => a + snd t) (filter (trip_hits r c) ts) acc = acc + from_triplets ts r c.
+  Proof.
+    revert acc. induction ts as [|t ts IH]; intros acc; cbn [filter fold_left from_triplets]; [ring|].
+    destruct t as [[i j] v]. unfold trip_hits at 1. unfold trip_at.
+    destruct (Nat.eqb i r && Nat.eqb j c)%bool.
+    - cbn [fold_left snd]. rewrite IH. ring.
+    - rewrite IH. ring.
+  Qed.
+
+  Lemma from_triplets_fast_ok (ts : list triplet) r c :
+    from_triplets_fast ts r c = from_triplets ts r c.
+  Proof. unfold from_triplets_fast. rewrite fold_hits_acc. ring. Qed.
+
   (* every entry outside the index box is zero when all triplets are in range
      (setFromTriplets would write outside the matrix otherwise) *)
   Lemma sum_delta_in n x : x < n -> sumn n (fun c => @delta F Fo c x) = 1.
